@@ -28,6 +28,12 @@ by _cache starts with '.', listings use the '*' glob, the AppCfgMgr handlers
 ignore dot names before acting.  C12.5 content: the object dumped is the
 /scheduled manifest after `task` was set and after update(placement_data),
 read from this host's placement node.
+Added by the seeding rounds - C12.1 every synchronisation reaches the loops
+and the ready event is set only after the children watch was registered; C12.4
+temp prefix starts with a dot and listings use the '*' glob; C12.5 the up-to-
+date shortcut is taken only under file ctime >= placement creation time
+(seconds, no truncation) and the cache file is written on every path that has
+the manifest; thorough: only the owner modules write the cache directory.
 Does NOT decide real crash atomicity of the file system nor convergence from
 arbitrary prior contents beyond the set algebra.
 """
